@@ -24,6 +24,7 @@ TECHNIQUE += '; pegen._is_nullable_safe against the same nullable table incl. ne
 LEVEL_TEXT += " Added clause: the analysis' own nullable helper agrees with the table on nested sequences and choices."
 TECHNIQUE += '; bare-option choices (the optimized grammar) in the nullable table'
 LEVEL_TEXT += ' Added clause: a choice whose options are bare expressions is nullable iff an option is.'
+TECHNIQUE += '; the seed store is pruned only by its owners (= C04.R2)'
 LEVEL_NOTE = ('CPython: typing.Protocol.__init_subclass__ clears _is_protocol only if every __init_subclass__ before it in the MRO '
               'chains to super(). The nullable table (DESIGN appendix C) is the oracle.')
 EXPLANATION = ('Static analysis of /repo sources, TatSu not imported. Model methods are interpreted by the whitelisted evaluator '
